@@ -1087,6 +1087,12 @@ def build_kernels(D):
               lambda a, e: bool(_prop.isdiag_csr(a[0])),
               lambda c, e: "G_isdiag_csr %s" % c[0], "bool"))
 
+    def clean_raws(args):
+        return [raw_of(D, _dia.clean_dia(x)) for x in args]
+    K.append(("isequal_dia", ["Dia", "Dia"], None,
+              lambda a, e: bool(_prop.isequal_dia(a[0], a[1])),
+              lambda c, e: "G_isequal_dia %s %s" % (c[0], c[1]), "bool", clean_raws))
+
     def tol(rng):
         return (rng.choice([1, 2, 3]), rng.random() < 0.5)
 
@@ -1115,11 +1121,12 @@ def correspondence(ctx, D, rng, ncases):
     dist = ctx.cov.setdefault("input_distribution", {})
     dk = dist.setdefault("corr_kernel", {})
     dv = dist.setdefault("corr_variant", {})
-    weight = {"add_csr": 6, "csr.from_dense": 2, "csr.from_dia": 2, "add_dense": 2,
+    weight = {"add_csr": 6, "isequal_dia": 3, "csr.from_dense": 2, "csr.from_dia": 2, "add_dense": 2,
               "dia.from_dense[auto_tidyup=False]": 2}
     K = [k for k in K for _ in range(weight.get(k[0], 1))]
     for it in range(ncases):
-        name, types, extra_gen, real, coqexpr, kind = K[it % len(K)]
+        name, types, extra_gen, real, coqexpr, kind = K[it % len(K)][:6]
+        prep = K[it % len(K)][6] if len(K[it % len(K)]) > 6 else None
         cls = rng.choice(SHAPE_CLASSES)
         if name.startswith("trace") or name == "isdiag_csr":
             cls = rng.choice(["1x1", "square", "square", "tall"])
@@ -1132,9 +1139,14 @@ def correspondence(ctx, D, rng, ncases):
             shapes[1] = tuple(s2)
             malformed = True
         reps, args, raws = [], [], []
+        same = name == "isequal_dia" and rng.random() < 0.5
+        prev = None
         for t, s in zip(types, shapes):
             rep = rng.choice([r for r in REPRS if r[0] == t])
             a = gen_matrix(rng, s, rng.choice(DENSITIES))
+            if same and prev is not None and prev.shape == a.shape:
+                a = prev.copy()
+            prev = a
             x = make_repr(D, a, rng, rep)
             reps.append(rep)
             args.append(x)
@@ -1149,9 +1161,10 @@ def correspondence(ctx, D, rng, ncases):
         dk[name] = dk.get(name, 0) + 1
         if malformed:
             dist["corr_malformed"] = dist.get("corr_malformed", 0) + 1
+        mraws = prep(args) if prep else raws
         cases.append({"kernel": name, "operands": raws, "extra": list(extra),
                       "impl": impl, "kind": kind,
-                      "expr": coqexpr([coq_of(r) for r in raws], extra)})
+                      "expr": coqexpr([coq_of(r) for r in mraws], extra)})
     try:
         vals = vlib.coq_eval_values("cases_C01", HEADER, [c["expr"] for c in cases], chunk=150)
     except RuntimeError as e:
@@ -1346,29 +1359,30 @@ def check_conversions(ctx, D, rng, n):
 
 # ======================================================== witness replays
 def replay_witnesses(ctx, D):
-    """The witnesses of the `_refuted` theorems of Props/C01.v, on the real
+    """The witness of the `_refuted` theorem of Props/C01.v and the witnesses
+    of the old_... rules (regression guards for the fix commits), on the real
     implementation."""
     from qutip.core.data.base import idxint_dtype
     import importlib
     tidy = importlib.import_module("qutip.core.data.tidyup")
     prop = importlib.import_module("qutip.core.data.properties")
-    # C01_tidyup_dense_copy_refuted
+    # regression guard: C01_old_tidyup_dense_witness
     x = D.Dense(np.array([[1, 5]], dtype=complex))
     out = tidy.tidyup_dense(x, 2.5, False)
     if np.array_equal(out.to_array(), [[1, 5]]) and np.array_equal(x.to_array(), [[0, 5]]):
         ctx.violation("tidyup_dense.inplace_false", "copy-untouched-argument-modified",
                       "tidyup_dense(M, tol, inplace=False) returns M unchanged and tidies its "
-                      "argument (witness of C01_tidyup_dense_copy_refuted)",
+                      "argument (the rule old_tidyup_dense, fixed by e806789, is back)",
                       {"witness": "Dense [[1,5]], tol=2.5", "returned": enc(out.to_array()),
                        "argument_after": enc(x.to_array())})
-    # C01_isequal_dia_refuted
+    # regression guard: C01_old_isequal_dia_witness
     a = D.Dia((np.array([[1, 1], [0, 2]], dtype=complex), np.array([0, 1], dtype=idxint_dtype)), shape=(2, 2))
     b = D.Dia((np.array([[1, 1]], dtype=complex), np.array([0], dtype=idxint_dtype)), shape=(2, 2))
     if prop.isequal_dia(a, b) and not np.array_equal(a.to_array(), b.to_array()):
         ctx.violation("isequal_dia.trailing_diagonals", "true-on-unequal",
-                      "isequal_dia([[1,2],[0,1]], identity) is True (witness of "
-                      "C01_isequal_dia_refuted)", {"A": raw_of(D, a), "B": raw_of(D, b)})
-    # C01_isdiag_csr_structural_zero_refuted
+                      "isequal_dia([[1,2],[0,1]], identity) is True (the rule "
+                      "old_isequal_dia_walk, fixed by 1930127, is back)", {"A": raw_of(D, a), "B": raw_of(D, b)})
+    # regression guard: C01_old_isdiag_csr_witness
     m = D.CSR((np.array([0, 3], dtype=complex), np.array([1, 1], dtype=idxint_dtype),
                np.array([0, 1, 2], dtype=idxint_dtype)), shape=(2, 2))
     if not prop.isdiag_csr(m) and prop.isdiag_dense(D.to(D.Dense, m)):
